@@ -82,6 +82,7 @@ class RegCall(Contract):
                                     z3.Select(s.g("g_res"), g0) == s.sel("list.arr", r)),
             "result:never-the-private-sentinel": z3.ForAll([k], z3.Implies(
                 z3.And(k >= 0, k < s.sel("list.len", r)), z3.Select(s.sel("list.arr", r), k) != W.SENT)),
+            "C04|a-failing-callback-is-not-swallowed": none_swallowed(s0, s),
             "empty-group:no-callback-runs": z3.Implies(group_empty(s0, a.key.e), z3.And(
                 s.sel("list.len", r) == 0, nothing_happens(s0, s))),
         })
@@ -112,7 +113,7 @@ class RegAll(Contract):
     returns = "bool"
     raises = True
     modifies = ENV_MODIFIES
-    properties = ["C01", "C08"]
+    properties = ["C01", "C04", "C08"]
     kind = GK_ALL
 
     pre = RegCall.pre
@@ -127,6 +128,7 @@ class RegAll(Contract):
         f = glog_record(s0, s, a.key.e, a.kwargs, self.kind)
         f.update(env_effect(s0, s))
         f["result:logged"] = z3.Select(s.g("g_ok"), g0) == r.e
+        f["C04|a-failing-guard-is-not-swallowed"] = none_swallowed(s0, s)
         f["empty-group:true-and-no-callback-runs"] = z3.Implies(
             group_empty(s0, a.key.e), z3.And(r.e, nothing_happens(s0, s)))
         return f
@@ -156,6 +158,7 @@ CB_MODIFIES = ENV_MODIFIES
 CB_RAW = z3.Function("CB_RAW", Int, Int)  # what invocation #c of a user callable returned
 CB_FINAL = z3.Function("CB_FINAL", Int, Int)  # ... and what awaiting that yields (itself if not awaitable)
 AWAITABLE = z3.Function("AWAITABLE", Int, Bool)
+CB_RAISES = z3.Function("CB_RAISES", Int, Bool)  # invocation #c raised (at the call or when awaited)
 COND = z3.Function("COND", Int, Int, Bool)  # spec.cond(event=...) — a pure function of the event
 CNT = z3.Function("CNT", Int, Int, Int, Int)  # CNT(executor, event, j): #applicable wrappers among the first j
 
@@ -194,6 +197,15 @@ def cb_log_prefix_kept(s0, s):
                   prefix_kept(s0.g("cb_ms"), s.g("cb_ms"), c0, "cm"), prefix_kept(s0.g("cb_ks"), s.g("cb_ks"), c0, "ck"))
 
 
+def none_swallowed(s0, s, when=None):
+    """C04: (RTC) every callback invoked since s0 returned normally — so a normal return of the
+    enclosing function means no callback failure was swallowed on the way."""
+    c = z3.Const("c!ns", Int)
+    rl = z3.And(rtc(s0), locked(s0)) if when is None else when
+    return z3.Implies(rl, z3.ForAll([c], z3.Implies(z3.And(c >= s0.g("ncb"), c < s.g("ncb")), z3.Not(CB_RAISES(c))),
+                                    patterns=[CB_RAISES(c)]))
+
+
 def user_effect(s0, s):
     """EnvCB for one invocation of user code, including what it may do to the callback log:
     RTC: nothing (no callback of this machine can run inside a callback); non-RTC: it grows."""
@@ -224,10 +236,13 @@ class UserCB(Contract):
         f["oracle:raw-value"] = r.e == CB_RAW(c)
         f["oracle:final-of-non-awaitable"] = z3.Implies(z3.Not(AWAITABLE(CB_RAW(c))), CB_FINAL(c) == CB_RAW(c))
         f["oracle:never-the-private-sentinel"] = z3.And(CB_RAW(c) != W.SENT, CB_FINAL(c) != W.SENT)
+        f["oracle:plain-call-returned-so-it-did-not-raise"] = z3.Implies(z3.Not(AWAITABLE(CB_RAW(c))), z3.Not(CB_RAISES(c)))
         return f
 
     def exc_post(self, s0, s, a, x):
-        return user_effect(s0, s)
+        f = user_effect(s0, s)
+        f["oracle:raised"] = CB_RAISES(s0.g("ncb") - 1)
+        return f
 
     def assumptions(self):
         return ["user callbacks, guards, validators and property getters are oracles constrained only by EnvCB"]
@@ -249,10 +264,13 @@ class UserAwait(Contract):
         f = user_effect(s0, s)
         c = s0.g("ncb") - 1
         f["oracle:final-value"] = z3.Implies(a.self.e == CB_RAW(c), r.e == CB_FINAL(c))
+        f["oracle:awaited-to-completion-so-it-did-not-raise"] = z3.Implies(a.self.e == CB_RAW(c), z3.Not(CB_RAISES(c)))
         return f
 
     def exc_post(self, s0, s, a, x):
-        return user_effect(s0, s)
+        f = user_effect(s0, s)
+        f["oracle:raised"] = z3.Implies(a.self.e == CB_RAW(s0.g("ncb") - 1), CB_RAISES(s0.g("ncb") - 1))
+        return f
 
 
 @register
@@ -291,7 +309,7 @@ class WrapperCall(Contract):
     returns = "Val"
     raises = True
     modifies = CB_MODIFIES
-    properties = ["C01", "C02", "C05", "C08", "C14"]
+    properties = ["C01", "C02", "C04", "C05", "C08", "C14"]
 
     def pre(self, s, a):
         f = dict(wf_world(s))
@@ -329,6 +347,7 @@ class WrapperCall(Contract):
         f.update(env_effect(s0, s))
         f["C01,C08,C14|result-is-the-callbacks-own-value-or-guard-verdict"] = r.e == conv(s0, a.self.e, CB_FINAL(c0))
         f["C03|never-the-private-sentinel"] = r.e != W.SENT
+        f["C04|a-failing-callback-is-not-swallowed"] = none_swallowed(s0, s)
         return f
 
     def exc_post(self, s0, s, a, x):
@@ -409,7 +428,7 @@ class ExecCall(Contract):
     returns = "list[Val]"
     raises = True
     modifies = CB_MODIFIES
-    properties = ["C02", "C05", "C12", "C14"]
+    properties = ["C02", "C04", "C05", "C12", "C14"]
 
     def pre(self, s, a):
         f = dict(wf_world(s))
@@ -456,6 +475,7 @@ class ExecCall(Contract):
         f["C02,C12|rtc:in-executor-order-with-entry-state"] = z3.Implies(rl, self._applied(s0, s, a, n, None))
         f["C14|rtc:result-is-their-values-in-order"] = z3.Implies(rl, z3.And(
             s.sel("list.len", r) == m, self._applied(s0, s, a, n, r.e)))
+        f["C04|a-failing-callback-is-not-swallowed"] = none_swallowed(s0, s)
         f["C11|empty-executor:nothing-happens"] = z3.Implies(n == 0, z3.And(
             s.sel("list.len", r) == 0, untouched(s0, s)))
         return f
@@ -485,6 +505,7 @@ class ExecCall(Contract):
         f["rtc:records-in-order"] = z3.Implies(rl, self._applied(s0, s, a, l.i, None))
         f["rtc:values-in-order"] = z3.Implies(rl, self._applied(s0, s, a, l.i, acc))
         f["lock-still-held"] = z3.Implies(rtc(s0), locked(s) == locked(s0))
+        f["C04|none-swallowed-so-far"] = none_swallowed(s0, s)
         f["nothing-happens-before-the-first-callback"] = z3.Implies(l.i == 0, z3.And(
             s.sel("list.len", acc) == 0, untouched(s0, s)))
         return f
@@ -508,7 +529,7 @@ class ExecAll(Contract):
     returns = "bool"
     raises = True
     modifies = CB_MODIFIES
-    properties = ["C01", "C05", "C08", "C12"]
+    properties = ["C01", "C04", "C05", "C08", "C12"]
 
     pre = ExecCall.pre
 
@@ -537,6 +558,7 @@ class ExecAll(Contract):
         f["cb-log-prefix-kept"] = cb_log_prefix_kept(s0, s)
         f["C01,C08|rtc:enabled-iff-every-guard-gives-its-expected-verdict"] = z3.Implies(
             rl, r.e == self._all_pass(s0, a, n))
+        f["C04|a-failing-guard-is-not-swallowed"] = none_swallowed(s0, s)
         f["C11|empty-executor:true-and-nothing-happens"] = z3.Implies(n == 0, z3.And(r.e, untouched(s0, s)))
         f["C01,C02|rtc:evaluated-in-order-up-to-first-failure"] = z3.Implies(rl, z3.And(
             m >= 0, m <= n, self._evaluated(s0, s, a, m), self._all_pass(s0, a, m - 1),
@@ -554,6 +576,7 @@ class ExecAll(Contract):
         f["rtc:all-so-far-passed"] = z3.Implies(rl, z3.And(
             s.g("ncb") == c0 + l.i, s.g("ng") == s0.g("ng"), self._evaluated(s0, s, a, l.i), self._all_pass(s0, a, l.i)))
         f["lock-still-held"] = z3.Implies(rtc(s0), locked(s) == locked(s0))
+        f["C04|none-swallowed-so-far"] = none_swallowed(s0, s)
         f["nothing-happens-before-the-first-guard"] = z3.Implies(l.i == 0, untouched(s0, s))
         return f
 
